@@ -69,6 +69,22 @@ def discover_queue_field(ctx) -> str:
     return cands[0]
 
 
+def _key_elems(repo, mod, v):
+    """Elements of a key: a tuple literal, or the constructor call of a NamedTuple-like repo class (in field order)."""
+    if isinstance(v, ast.Tuple):
+        return list(v.elts)
+    if isinstance(v, ast.Call) and not any(k.arg is None for k in v.keywords):
+        ci = repo.resolve_class(ap(v.func) or "", mod)
+        if ci is None:
+            return None
+        fields = [st.target.id for st in ci.node.body if isinstance(st, ast.AnnAssign) and isinstance(st.target, ast.Name)]
+        bound = {fields[i]: e for i, e in enumerate(v.args) if i < len(fields)}
+        bound.update({k.arg: k.value for k in v.keywords})
+        if fields and set(bound) == set(fields):
+            return [bound[f] for f in fields]
+    return None
+
+
 def discover_cache(ctx):
     """Where cache_last_poll_response keeps (ack, payload): role -> component access path, plus the store
     statements and the self attributes involved."""
@@ -87,6 +103,12 @@ def discover_cache(ctx):
             if par is not None and ap(v) == par:
                 comp[role] = s_.path
                 sts[role].append(s_)
+        elts_ = _key_elems(repo, cf.fi.module, v)
+        if elts_ is not None and pars["payload"] in [ap(e) for e in elts_]:
+            elts_ = None        # a record that also carries the payload: handled field by field below
+        if elts_ is not None and pars["ack"] in [ap(e) for e in elts_] \
+                and all(isinstance(e, ast.Name) and e.id in cf.params[1:] for e in elts_):
+            v = ast.Tuple(elts=elts_, ctx=ast.Load())
         if isinstance(v, ast.Tuple) and pars["ack"] in [ap(e) for e in v.elts] \
                 and all(isinstance(e, ast.Name) and e.id in cf.params[1:] for e in v.elts):
             # the key is a tuple of parameters (ack plus what identifies the queue)
@@ -104,6 +126,9 @@ def discover_cache(ctx):
                     if par is not None and ap(e) == par:
                         comp[role] = f"{s_.path}.{fld}"
                         sts[role].append(s_)
+                if isinstance(e, ast.Name) and e.id in cf.params[1:] and e.id not in pars.values() \
+                        and "payload" in [r_ for r_, p_ in pars.items() if any(ap(x_) == p_ for x_ in bound.values())]:
+                    comp.setdefault("queue_fields", {})[e.id] = f"{s_.path}.{fld}"
     return cf, comp, sts, attrs
 
 
@@ -305,11 +330,26 @@ class RespModel:
     def anchor_nodes(self):
         return self.fn.cfg.nodes_for(self.anchor) if self.kind == "loop" else self.fn.nodes(self.anchor)
 
+    @property
+    def new_names(self):
+        """The outgoing list under all its names: plain aliases `b = a` of the collected list count."""
+        names = {self.new} if self.new else set()
+        changed = True
+        while changed and names:
+            changed = False
+            for s in stores(self.fn.tree, into_defs=False):
+                if s.kind == "assign" and "." not in s.path and s.path not in names and isinstance(s.value, ast.Name) \
+                        and s.value.id in names and single_def(self.fn.tree, s.path) is s.value:
+                    names.add(s.path)
+                    changed = True
+        return names
+
     def new_mutations(self):
-        """(store, role) for every store on the NEW list."""
+        """Every store on the outgoing list (alias bindings themselves excluded)."""
         out = []
+        names = self.new_names
         for s in stores(self.fn.tree, into_defs=False):
-            if s.path == self.new:
+            if s.path in names and not (s.kind == "assign" and isinstance(s.value, ast.Name) and s.value.id in names):
                 out.append(s)
         return out
 
@@ -444,7 +484,7 @@ def r1(ctx, m: RespModel):
                        "(order or content of simulator events no longer preserved)")
         # the list is what gets sent
         sts = [s for s in stores(tree, into_defs=False) if s.kind == "setitem" and s.path == m.parsed
-               and isinstance(s.target.slice, ast.Constant) and s.target.slice.value == "events" and ap(s.value) == m.new]
+               and isinstance(s.target.slice, ast.Constant) and s.target.slice.value == "events" and ap(s.value) in m.new_names]
         sn = set(n for s in sts for n in fn.nodes(s.node))
         fmt = set(n for s in m.formats for n in fn.nodes(s.node))
         an = m.anchor_nodes()
@@ -545,14 +585,14 @@ def _merge_stmts(m: RespModel):
         x = origin(tree, x)
         return any(x is t for t in m.takes)
     for s in stores(tree, into_defs=False):
-        if s.path != m.new:
+        if s.path not in m.new_names:
             continue
         if s.kind == "mutcall" and s.method == "extend" and s.node.args and is_take(s.node.args[0]):
             out.append(enclosing_stmt(s.node))
         elif s.kind == "augassign" and isinstance(s.node.op, ast.Add) and is_take(s.node.value):
             out.append(s.node)
         elif s.kind == "assign" and isinstance(s.value, ast.BinOp) and isinstance(s.value.op, ast.Add) \
-                and ap(s.value.left) == m.new and is_take(s.value.right):
+                and ap(s.value.left) in m.new_names and is_take(s.value.right):
             out.append(s.node)
     return out
 
@@ -584,15 +624,17 @@ def r1_llsd_binding(ctx):
     ctx.floor("C17.R1", "llsd receivers in the EQ handlers", n, 1)
     # the event decoder unpacks only what arrived as <binary> (other simulators write plain integers / strings)
     ds = repo.fn("LLSDMessageSerializer.deserialize")
-    ups = [c for c in calls(ds.node) if call_attr(c) == "unpack" and c.args]
-    ctx.floor("C17.R1", "unpack calls in LLSDMessageSerializer.deserialize", len(ups), 1)
+    # the unpacking may sit in deserialize itself or in a helper / converter of the serializer class
+    ups = [(g, c) for g in (ds.cls.methods.values() if ds.cls is not None else [ds]) for c in calls(g.node)
+           if call_attr(c) == "unpack" and c.args and (ap(c.func) or "").split(".")[-2:-1] == ["LLSDDataPacker"]]
+    ctx.floor("C17.R1", "LLSDDataPacker.unpack calls in LLSDMessageSerializer", len(ups), 1)
     from ..core import conditions as _conditions
-    for c in ups:
+    for g, c in ups:
         v = ap(c.args[0])
         guarded = any(isinstance(x, ast.Call) and isinstance(x.func, ast.Name) and x.func.id == "isinstance" and x.args
-                      and ap(x.args[0]) == v for cond in _conditions(c, ds.node) for x in ast.walk(cond.test)) \
-            or guarded_catch_all_(c, ds.node)
-        ctx.ob("C17.R1", "LLSDMessageSerializer.deserialize unpacks only values that arrived as binary", guarded, ctx.w(ds, c),
+                      and ap(x.args[0]) == v for cond in _conditions(c, g.node) for x in ast.walk(cond.test)) \
+            or guarded_catch_all_(c, g.node)
+        ctx.ob("C17.R1", "LLSDMessageSerializer.deserialize unpacks only values that arrived as binary", guarded, ctx.w(g, c),
                f"{norm(c)} runs for every packed-type variable whatever its LLSD form: an event that carries such a value as "
                f"a plain integer / string (OpenSimulator's TeleportFinish) raises, none of the event handling runs and the "
                f"announced region is never registered")
@@ -771,7 +813,7 @@ def r3(ctx, m: RespModel):
         extra, has_new, reads = [], False, []
         for e, pol in rel_facts(s.node, m.anchor, tree):
             for leaf, lp, defstmt in leaf_facts(tree, e, pol):
-                if isinstance(leaf, ast.Name) and leaf.id == m.new and lp is False:
+                if isinstance(leaf, ast.Name) and leaf.id in m.new_names and lp is False:
                     has_new = True
                     reads.append(defstmt if defstmt is not None else leaf)
                 elif lp is True and (norm(origin(tree, leaf)) == norm(origin(tree, m.iter))
@@ -857,11 +899,28 @@ def r3(ctx, m: RespModel):
             if roles is None:
                 return expand_path(gf.tree, x) == gpar
             x = origin(gf.tree, x)
+            xe = _key_elems(repo, gf.fi.module, x)
+            x = ast.Tuple(elts=xe, ctx=ast.Load()) if xe is not None else x
             return isinstance(x, ast.Tuple) and len(x.elts) == len(roles) and all(
                 isinstance(e_, ast.Name) and e_.id in gf.params[1:] for e_ in x.elts) and \
                 [("ack" if ap(e_) == gpar else "q") for e_ in x.elts] == [("ack" if r_ == "ack" else "q") for r_ in roles]
+        def fieldwise(e):
+            """(stored.queue, stored.ack) == (queue, ack): the same key compared field by field."""
+            l_, r_ = origin(gf.tree, e.left), origin(gf.tree, e.comparators[0])
+            if not (isinstance(l_, ast.Tuple) and isinstance(r_, ast.Tuple) and len(l_.elts) == len(r_.elts)):
+                return False
+            qf = comp.get("queue_fields", {})
+            want = {comp.get("ack")} | set(qf.values())
+            got = set()
+            for a_, b_ in zip(l_.elts, r_.elts):
+                for st_, pr_ in ((a_, b_), (b_, a_)):
+                    pth = expand_path(gf.tree, st_)
+                    if pth in want and isinstance(pr_, ast.Name) and pr_.id in gf.params[1:]:
+                        got.add(pth)
+            return got == want and len(l_.elts) == len(want)
         eq = [1 for e, pol in fs if isinstance(e, ast.Compare) and len(e.ops) == 1 and (
             (isinstance(e.ops[0], ast.Eq) and pol) or (isinstance(e.ops[0], ast.NotEq) and not pol)) and (
+            fieldwise(e) or
             (expand_path(gf.tree, e.left) == comp.get("ack") and key_side(e.comparators[0])) or
             (expand_path(gf.tree, e.comparators[0]) == comp.get("ack") and key_side(e.left)))]
         ctx.ob("C17.R3", "get_cached_poll_response serves the cache exactly when the request's ack equals the cached ack",
@@ -873,7 +932,7 @@ def r3(ctx, m: RespModel):
     roles = comp.get("key_roles") or []
     cfi_ = repo.fn(f"{EQM}.cache_last_poll_response")
     gfi_ = repo.fn(f"{EQM}.get_cached_poll_response")
-    qpar_c = [cf.params[int(r_[1:])] for r_ in roles if r_ != "ack"]
+    qpar_c = [cf.params[int(r_[1:])] for r_ in roles if r_ != "ack"] or list(comp.get("queue_fields", {}))
     supplied = bool(qpar_c)
     for c in m.caches:
         supplied = supplied and all(q in bind_call(cfi_, c) for q in qpar_c)
